@@ -53,6 +53,18 @@ CHECKS = {
             "transformation to the trees, selects the formatter as documented, and every option has an effect. Byte "
             "equality of CLI and library text below Printer.write (status-line buffering) is NOT decided.",
             "DESIGN.md section 4 C14, section 3 E6/E7"),
+    "C13": ("static simulation of the formatting protocol (port of _get_formatter over the statically built "
+            "sub-formatter trees and registration order), ownership/freshness analysis of node constructor arguments "
+            "in print-phase code (call graph with RTA, typed receivers), receiver/attribute existence checks",
+            "Static analysis over all 8 input types x 8 output formats x output modes at once: (E5) every (default "
+            "formatter, node class / Edited variant / edit class) cell of the dispatch table resolves to a handler or a "
+            "concrete fallback; and no function reachable while printing contains a hazard: (H1) re-parenting - a node "
+            "constructor (which sets child.parent) receiving an existing node instead of a fresh one or a copy; (H2) an "
+            "unconditionally raising handler; (H3) a missing attribute on a statically known receiver (colorama "
+            "constants, self/parent formatter methods); (H4) self.parent chains deeper than the formatter's tree "
+            "position or sub_formatters[i] out of range; (H7) a default formatter instance that cannot exist. "
+            "Value-dependent failures inside third-party encoders are NOT decided.",
+            "DESIGN.md section 4 C13, section 3 E4/E5"),
 }
 
 NOT_YET = "check not built yet in this session (static rules designed in DESIGN.md; will be claimed once the rule runs clean)"
